@@ -86,11 +86,12 @@ def driver_available():
     return os.path.exists(DRIVER)
 
 
-def run_driver(lines):
+def run_driver(lines, prop=None):
     """Evaluate lines on the Lean model; returns list of answers (same length)."""
     if not lines:
         return []
-    data = "\n".join(lines) + "\n"
+    prop = prop or _PROP[0]
+    data = "".join("%s %s\n" % (prop, l) for l in lines)
     p = subprocess.run([DRIVER], input=data.encode(), stdout=subprocess.PIPE, stderr=subprocess.PIPE)
     if p.returncode != 0:
         raise RuntimeError("driver crashed: rc=%s stderr=%s" % (p.returncode, p.stderr.decode()[-2000:]))
@@ -100,6 +101,9 @@ def run_driver(lines):
     if len(out) != len(lines):
         raise RuntimeError("driver returned %d answers for %d lines" % (len(out), len(lines)))
     return out
+
+
+_PROP = [None]
 
 
 def _driver_chunk(chunk):
@@ -249,6 +253,7 @@ def _init_worker(modname):
     import importlib
     sys.path.insert(0, os.path.join(VERIF, "harness"))
     _MODULE = importlib.import_module(modname)
+    _PROP[0] = _MODULE.PROP
     if hasattr(_MODULE, "worker_init"):
         _MODULE.worker_init()
 
@@ -375,6 +380,7 @@ def run_check(mod, argv):
     ap.add_argument("--no-build", action="store_true")
     a = ap.parse_args(argv)
     prop = mod.PROP
+    _PROP[0] = prop
     seed = int(os.environ.get("VERIF_SEED", "0"))
     if a.replay:
         return run_replay(mod, a.replay)
